@@ -4,6 +4,7 @@ pub mod mvalue;
 pub mod mop;
 pub mod mattr;
 pub mod mline;
+pub mod mcfi;
 #[cfg(kani)]
 mod gen;
 #[cfg(kani)]
@@ -16,5 +17,7 @@ pub mod c03;
 pub mod c04;
 #[cfg(kani)]
 pub mod c01;
+#[cfg(kani)]
+pub mod c06;
 #[cfg(kani)]
 mod setup;
